@@ -112,7 +112,13 @@ fn package_toml_text(i: usize, deps: &[usize], dangling: Option<usize>) -> Strin
 }
 
 fn node_dir(root: &Path, i: usize) -> std::path::PathBuf {
-    root.join(format!("dir{}", (i * 7) % 10)).join(format!("bp{i}"))
+    // node 0 and node 3 live below top-level directories that merely start with `target`
+    let top = match i {
+        0 => "targets".to_string(),
+        3 => "target-jvm".to_string(),
+        _ => format!("dir{}", (i * 7) % 10),
+    };
+    root.join(top).join(format!("bp{i}"))
 }
 
 /// Rescans of ONE directory in ONE process: workspace A is written and scanned, then only the
@@ -298,7 +304,7 @@ fn check_unreadable(dep_lists: &[Vec<usize>], at: usize) -> Option<Viol> {
     let ws_root = sc.path.join("ws");
     std::fs::create_dir_all(&ws_root).unwrap();
     write_workspace(&ws_root, dep_lists, None);
-    let d = ws_root.join(format!("dir{}", (at * 7) % 10)).join(format!("bp{at}"));
+    let d = node_dir(&ws_root, at);
     let p = d.join("package.toml");
     let mut bytes = b"# caf\xe9\n".to_vec();
     bytes.extend(std::fs::read(&p).unwrap_or_else(|_| b"[buildpack]\nuri = \".\"\n".to_vec()));
@@ -429,7 +435,7 @@ pub fn run(args: &Args) {
     rep.cov("dangling_cases", dj.len() as u64);
     rep.cov("distinct_nontrivial", nontrivial);
     rep.cov("distinct_outcomes", json!(shapes));
-    rep.cov("rule", "every labelled DAG on <= n nodes (n<=4: every permutation of every dependency list; n=5: ascending and descending), written as composite / libcnb.rs buildpack directories and loaded by the real build_libcnb_buildpacks_dependency_graph; every ordered non-empty root selection through the real get_dependencies; plus every DAG on <= 4 nodes with one dangling libcnb: dependency at each node (a well-formed unknown id, an invalid id, or a reserved id, by node index), and every DAG on <= 3 nodes with one package.toml that is not valid UTF-8 (an error, not a leaf); node 1 is always a symlink to a directory outside the workspace root; rescans: for every ordered pair (A, B) of DAGs on the same <= 3 nodes one directory is scanned as A, its package.toml files rewritten to B (buildpack.toml untouched) and scanned again in the same process, then back to A, then with a dangling reference added at each node: every scan must give exactly the edges on disk. non-trivial = workspaces with at least one edge");
+    rep.cov("rule", "every labelled DAG on <= n nodes (n<=4: every permutation of every dependency list; n=5: ascending and descending), written as composite / libcnb.rs buildpack directories and loaded by the real build_libcnb_buildpacks_dependency_graph; every ordered non-empty root selection through the real get_dependencies; plus every DAG on <= 4 nodes with one dangling libcnb: dependency at each node (a well-formed unknown id, an invalid id, or a reserved id, by node index), and every DAG on <= 3 nodes with one package.toml that is not valid UTF-8 (an error, not a leaf); node 1 is always a symlink to a directory outside the workspace root, nodes 0 and 3 live below top-level directories named `targets` and `target-jvm`; rescans: for every ordered pair (A, B) of DAGs on the same <= 3 nodes one directory is scanned as A, its package.toml files rewritten to B (buildpack.toml untouched) and scanned again in the same process, then back to A, then with a dangling reference added at each node: every scan must give exactly the edges on disk. non-trivial = workspaces with at least one edge");
     rep.cov("bound", json!({"max_nodes": max_n}));
     rep.cov("exhaustive", true);
     rep.sample(json!({"dep_lists": jobs[jobs.len() / 2].1, "roots": "every ordered non-empty selection"}));
